@@ -88,7 +88,7 @@ def attenuation(ctx):
     u = U.uri_mod()
     ctx.correspondence("attenuation-vs-model")
     terms, info = [], []
-    n = ctx.n(108, 720)
+    n = ctx.n(90, 720)
     for i in range(n):
         r = ctx.rng("att", i)
         kind = U.FILE_KINDS[i % 9]
@@ -259,7 +259,7 @@ def unknown_nodes(ctx):
     ctx.correspondence("unknown-node-vs-model")
     terms, info = [], []
     nm = NodeMaker(None, None, None, None, None, {"k": 3, "n": 10}, None, None)
-    n = ctx.n(180, 1300)
+    n = ctx.n(140, 1300)
     for i in range(n):
         r = ctx.rng("unk", i)
 
@@ -565,7 +565,7 @@ def dir_roundtrip(ctx):
     u = U.uri_mod()
     ctx.correspondence("directory-store-read-vs-model")
     terms, info = [], []
-    n = ctx.n(6, 45)
+    n = ctx.n(4, 45)
     for i in range(n):
         r = ctx.rng("dirrt", i)
         cands = dir_candidates(r)
